@@ -223,6 +223,16 @@ static string exec(const vector<string>& f) {
     result_t r = m->storeLastData(ms, ss);
     return "s\t" + std::to_string(r);
   }
+  if (op == "STOREI") {
+    // what BusHandler does with every telegram it has seen: invalidate the cached state of the same-named messages, then store
+    Message* m = byName(mm, f, 2);
+    if (!m) return "s\t-999";
+    MasterSymbolString ms; SlaveSymbolString ss;
+    ms.parseHex(f[6]); ss.parseHex(f[7]);
+    mm->invalidateCache(m);
+    result_t r = m->storeLastData(ms, ss);
+    return "s\t" + std::to_string(r);
+  }
   if (op == "STOREM") {
     MasterSymbolString ms; SlaveSymbolString ss;
     ms.parseHex(f[2]); ss.parseHex(f[3]);
